@@ -171,13 +171,18 @@ type hostSrv struct {
 	realmHost string
 	mode      atomic.Int32
 	cdn       string // CDN host this registry redirects to
-	toMirror  string // target of mToMirror
+	// chain: the hosts a redirected blob request travels through after this registry host
+	// (nested redirection, followed only by an http client that follows redirects itself).
+	// nil = just cdn. Consecutive equal entries are hops that stay on the same foreign host
+	// (…/entry -> …/object); the registry host's own name as last entry is a chain that
+	// returns to a path on the ORIGINAL host, which may legitimately get its headers again.
+	chain    []string
+	toMirror string // target of mToMirror
 
 	// cdn
 	headForbidden bool        // HEAD -> 403 (forces the GET fallback of the size probe)
 	evil401       atomic.Bool // CDN answers 401 with its own token realm
 	singleOnly    bool        // multi-range -> 400 (forces single range mode)
-	hopTo         string      // nested redirection: this CDN redirects once more, to that CDN host
 
 	// auth
 	noPost bool // POST /token -> 404 (forces the GET form with basic auth)
@@ -326,8 +331,8 @@ func (w *world) handle(req *http.Request, body string) *http.Response {
 		if req.URL.Query().Get("tok") != strconv.FormatInt(w.gen.Load(), 10) {
 			return resp(req, 403, nil, []byte("expired"))
 		}
-		if h.hopTo != "" && req.URL.Query().Get("hop") == "" {
-			return resp(req, 302, http.Header{"Location": {fmt.Sprintf("https://%s%s?tok=%s&hop=1", h.hopTo, req.URL.Path, req.URL.Query().Get("tok"))}}, nil)
+		if loc := w.nextHop(req); loc != "" {
+			return resp(req, 302, http.Header{"Location": {loc}}, nil)
 		}
 		if req.Method == "HEAD" && h.headForbidden {
 			return resp(req, 403, nil, nil)
@@ -335,6 +340,12 @@ func (w *world) handle(req *http.Request, body string) *http.Response {
 		return w.serveBlob(req, h.singleOnly)
 
 	default: // registry
+		if req.URL.Path == "/final"+w.blobPath { // last hop of a chain that returns to the original host (a signed URL: no auth)
+			if req.URL.Query().Get("tok") != strconv.FormatInt(w.gen.Load(), 10) {
+				return resp(req, 403, nil, []byte("expired"))
+			}
+			return w.serveBlob(req, false)
+		}
 		if req.URL.Path != w.blobPath {
 			return resp(req, 404, nil, []byte("no such blob"))
 		}
@@ -356,20 +367,46 @@ func (w *world) handle(req *http.Request, body string) *http.Response {
 			if h.mode.Load() == m307 {
 				code = 307
 			}
-			loc := fmt.Sprintf("https://%s/blob%s?tok=%d", h.cdn, w.blobPath, w.gen.Load())
-			return resp(req, code, http.Header{"Location": {loc}}, nil)
+			return resp(req, code, http.Header{"Location": {w.firstHop(h)}}, nil)
 		case mToMirror:
 			return resp(req, 302, http.Header{"Location": {"https://" + h.toMirror + w.blobPath}}, nil)
 		case m403Redir:
 			// range fetches are refused; only the re-resolution probe is redirected
 			if req.Method == "GET" && req.Header.Get("Range") == "bytes=0-1" {
-				loc := fmt.Sprintf("https://%s/blob%s?tok=%d", h.cdn, w.blobPath, w.gen.Load())
-				return resp(req, 302, http.Header{"Location": {loc}}, nil)
+				return resp(req, 302, http.Header{"Location": {w.firstHop(h)}}, nil)
 			}
 			return resp(req, 403, nil, nil)
 		}
 		return w.serveBlob(req, false)
 	}
+}
+
+// hopURL is the URL of hop i of the chain that starts at registry host reg.
+func (w *world) hopURL(reg *hostSrv, i int, tok, prev string) string {
+	chain := reg.chain
+	if len(chain) == 0 {
+		chain = []string{reg.cdn}
+	}
+	path := "/blob" + w.blobPath
+	if chain[i] == reg.name {
+		path = "/final" + w.blobPath
+	}
+	return fmt.Sprintf("https://%s%s?tok=%s&via=%s&hop=%d&prev=%s", chain[i], path, tok, url.QueryEscape(reg.name), i, url.QueryEscape(prev))
+}
+
+func (w *world) firstHop(reg *hostSrv) string {
+	return w.hopURL(reg, 0, strconv.FormatInt(w.gen.Load(), 10), reg.name)
+}
+
+// nextHop: the Location a CDN answers with when the chain of this request goes on ("" = serve here).
+func (w *world) nextHop(req *http.Request) string {
+	q := req.URL.Query()
+	reg := w.hosts[q.Get("via")]
+	i, err := strconv.Atoi(q.Get("hop"))
+	if reg == nil || err != nil || i+1 >= len(reg.chain) {
+		return ""
+	}
+	return w.hopURL(reg, i+1, q.Get("tok"), req.URL.Host)
 }
 
 // RoundTrip logs the request (host, method, URL, every header, body) in the calling
